@@ -91,6 +91,37 @@ func exec(t []string) string {
 			return "accept"
 		}
 		return "reject"
+	case "checkw": // like check, but through AuxPow.Serialize / Deserialize (indexes are uint32 on the wire)
+		tx := decodeTx(t[10])
+		ap := auxpow.AuxPow{
+			AuxMerkleBranch:   hashes(t[7]),
+			AuxMerkleIndex:    atoi(t[8]),
+			ParCoinbaseTx:     tx,
+			ParCoinBaseMerkle: hashes(t[4]),
+			ParMerkleIndex:    atoi(t[5]),
+		}
+		ap.ParBlockHeader.MerkleRoot = hash1(t[6])
+		cb := tx.Hash()
+		script := "none"
+		if len(tx.TxIn) > 0 {
+			script = hx.Hex(tx.TxIn[0].SignatureScript)
+		}
+		if hex.EncodeToString(cb[:]) != t[3] || script != t[9] {
+			return "oracle-mismatch"
+		}
+		buf := new(bytes.Buffer)
+		if err := ap.Serialize(buf); err != nil {
+			return "unserializable"
+		}
+		var dec auxpow.AuxPow
+		if err := dec.Deserialize(bytes.NewReader(buf.Bytes())); err != nil {
+			return "undecodable"
+		}
+		h := hash1(t[1])
+		if dec.Check(&h, atoi(t[2])) {
+			return "accept"
+		}
+		return "reject"
 	case "branch":
 		r := auxpow.GetMerkleRoot(hash1(t[1]), hashes(t[2]), atoi(t[3]))
 		return hex.EncodeToString(r[:])
@@ -151,10 +182,13 @@ var markerBytes = []byte{0xfa, 0xbe, 'm', 'm'}
 // (2) carry exactly one marker in the script BYTES, immediately followed by the reversed aux
 // root recomputed from this block hash, then size = 2^h and a nonce giving the slot.
 func oracle(t []string, out string) *hx.Violation {
-	if t[0] != "check" || out != "accept" {
+	if (t[0] != "check" && t[0] != "checkw") || out != "accept" {
 		return nil
 	}
 	parIdx, auxIdx := atoi(t[5]), atoi(t[8])
+	if t[0] == "checkw" { // what the wire carries
+		parIdx, auxIdx = int(uint32(parIdx)), int(uint32(auxIdx))
+	}
 	if parIdx >= 0 {
 		if hex.EncodeToString(refBranch(hx.UnHex(t[3]), hashes(t[4]), parIdx)) != t[6] {
 			return &hx.Violation{Kind: "accept-coinbase-not-under-root", Detail: "parent coinbase does not hash up to the parent merkle root"}
@@ -210,7 +244,9 @@ type proof struct {
 	auxIdx    int
 }
 
-func (p *proof) emit(g *hx.Gen) string {
+func (p *proof) emit(g *hx.Gen) string { return p.emitOp(g, "check") }
+
+func (p *proof) emitOp(g *hx.Gen, op string) string {
 	buf := new(bytes.Buffer)
 	p.tx.Serialize(buf)
 	cb := p.tx.Hash()
@@ -218,7 +254,7 @@ func (p *proof) emit(g *hx.Gen) string {
 	if len(p.tx.TxIn) > 0 {
 		script = hx.Hex(p.tx.TxIn[0].SignatureScript)
 	}
-	return g.Emit("check %s %d %s %s %d %s %s %d %s %s", hex.EncodeToString(p.hash[:]), p.chainID,
+	return g.Emit(op+" %s %d %s %s %d %s %s %d %s %s", hex.EncodeToString(p.hash[:]), p.chainID,
 		hex.EncodeToString(cb[:]), hashesHex(p.parBranch), p.parIdx, hex.EncodeToString(p.parRoot[:]),
 		hashesHex(p.auxBranch), p.auxIdx, script, hx.Hex(buf.Bytes()))
 }
@@ -488,8 +524,25 @@ func gen(g *hx.Gen) {
 		m(func(q *proof) { tx := q.tx; tx.LockTime++; q.tx = tx }) // coinbase changed, parent root not
 		m(func(q *proof) { tx := q.tx; tx.TxIn = nil; q.tx = tx; q.parRoot = auxpow.GetMerkleRoot(q.tx.Hash(), q.parBranch, q.parIdx) })
 		m(func(q *proof) { q.parIdx = -1; q.parRoot = common.Uint256{} })
+		// through the wire format: indexes travel as uint32
+		p.emitOp(g, "checkw")
+		{
+			q := *p // high bits of the parent index are ignored by the fold: still the same leaf position
+			q.parIdx = int(uint32(q.parIdx) | uint32(0xffffffff)<<uint(len(q.parBranch)))
+			q.emitOp(g, "checkw")
+			q = *p
+			q.auxIdx = int(uint32(q.auxIdx) | uint32(0xffffffff)<<uint(h%32))
+			q.emitOp(g, "checkw")
+			q = *p
+			q.parIdx = -1 // 0xffffffff on the wire
+			q.emitOp(g, "checkw")
+		}
 		if shift {
-			continue // byte-level script surgery below assumes the aligned layout
+			// the proof is found at an odd hex offset: further markers in the script BYTES
+			p.withScript(append(append([]byte{}, script...), markerBytes...)).emit(g)
+			p.withScript(append(append([]byte{}, markerBytes...), script...)).emit(g)
+			p.withScript(append(append([]byte{}, script...), 0x0f, 0xab, 0xe6, 0xd6, 0xd0)).emit(g)
+			continue // the byte-level script surgery below assumes the aligned layout
 		}
 		// script mutations (parent root recomputed, so only the script decides)
 		s := func(f func(b []byte) []byte) {
